@@ -106,6 +106,8 @@ def run_variant(scn, base, variant, listing):
     from freezegun import freeze_time
 
     parent = {"plain": "plain", "under_ascmhl": "ascmhl", "under_ascmhl_deep": os.path.join("ascmhl", "nested"),
+              # names that mean something to glob / fnmatch / regular expressions / shells
+              "under_meta_chars": os.path.join("Card [A001] x*y?", "(b)+{c}^$ \u00e9\u6587"),
               "under_user_pattern": {"*.tmp": "x.tmp", "parent*": "parent1", "x?": "xy"}.get(scn.get("user_pattern") or "", "plain2")}.get(variant, variant)
     pdir = os.path.join(base, parent)
     os.makedirs(pdir, exist_ok=True)
@@ -130,7 +132,7 @@ def run_variant(scn, base, variant, listing):
     return root, [o for o, _ in outcomes]
 
 
-VARIANTS = ["under_ascmhl", "under_ascmhl_deep", "under_user_pattern", "trailing_slash", "relative", "dot_slash"]
+VARIANTS = ["under_ascmhl", "under_ascmhl_deep", "under_user_pattern", "under_meta_chars", "trailing_slash", "relative", "dot_slash"]
 LISTINGS = [("reversed", 0), ("shuffled", 1), ("shuffled", 2)]
 RULE = ("the same tree (equalised mtimes, frozen clock) with nested child histories sealed by the same command sequence at a reference location and (a) under a parent folder "
         "named ascmhl / ascmhl/nested / matching the user's own -i pattern, with a trailing slash, by relative path, as ./r/ ; (b) with os.listdir / os.scandir returning "
@@ -162,7 +164,7 @@ def check(rep, tier, seed):
             rep.traces += 1
             if d is not None:
                 rep.disagree({"scenario": mscn, "step": d[0]}, d[2], d[1], f"model and implementation differ at step {d[0]}")
-            runs = [(v, ("sorted", 0)) for v in (VARIANTS if tier == "thorough" or i % 2 == 0 else rng.sample(VARIANTS, 3))]
+            runs = [(v, ("sorted", 0)) for v in (VARIANTS if tier == "thorough" or i % 2 == 0 else list(dict.fromkeys(rng.sample(VARIANTS, 3) + ["under_meta_chars"])))]
             runs += [("order_%s%d" % l, l) for l in LISTINGS]
             for v, listing in runs:
                 rep.count("variant." + v.split("_")[0])
@@ -177,7 +179,7 @@ def check(rep, tier, seed):
                     rep.violate("not-byte-identical:" + v.rstrip("012"), {"scenario": scn, "variant": v}, {"file": k, "bytes": (ref.get(k) or b"")[:3000].decode("utf-8", "replace")},
                                 {"file": k, "bytes": (got.get(k) or b"")[:3000].decode("utf-8", "replace")}, f"{len(diff)} file(s) of the ascmhl folders differ from the reference run in variant {v}: {diff[:4]}")
             # a relocated copy verifies
-            moved = os.path.join(base, "moved", "elsewhere")
+            moved = os.path.join(base, "moved", "elsewhere") if i % 2 else os.path.join(base, "moved [b] *?", "else{w}here (1)")
             os.makedirs(os.path.dirname(moved))
             shutil.copytree(ref_root, moved)
             for cmd in ("verify", "diff"):
